@@ -24,7 +24,8 @@ def comparable(wn, m, version):
     for g in OPTION_GROUPS:
         og = dict(d['options'].get(g, {}))
         for k in ('inpfile_units', 'inpfile_pressure_units', 'hydraulics', 'hydraulics_filename', 'pattern_interpolation'):
-            og.pop(k, None)
+            if not (g == 'quality' and k == 'inpfile_units'):      # the flow units are a parameter of the write; the mass units are part of the model
+                og.pop(k, None)
         if version == 2.0 and g == 'hydraulic':
             for k in ONLY_22:
                 og.pop(k, None)
@@ -39,6 +40,9 @@ def comparable(wn, m, version):
                 og.pop('required_pressure')      # below EPANET's lower limit (0.1 psi or m): the writer clamps it, with a warning
         if g == 'quality' and str(og.get('parameter', 'NONE')).upper() != 'TRACE':
             og.pop('trace_node', None)      # the QUALITY line names a trace node only for a TRACE analysis
+        if g == 'quality' and str(og.get('parameter', 'NONE')).upper() in ('NONE', 'AGE', 'TRACE'):
+            og.pop('chemical_name', None)   # ... and a chemical (with its mass units) only for a chemical analysis
+            og.pop('inpfile_units', None)
         opts[g] = og
     out['options'] = opts
     # a default pattern name that names no pattern means "no pattern" (empty pattern name)
